@@ -13,3 +13,30 @@ pub assume_specification<T: Clone>[ <T as std::borrow::ToOwned>::to_owned ](s: &
 // A2ml::parse to normalise "\r\n" line ends of the A2ML text
 pub assume_specification<P: std::str::pattern::Pattern>[ str::replace ](s: &str, from: P, to: &str) -> (r: String)
 ;
+
+// ---- std combinators used by ParserState::parse_version / parse_file (parser.rs) ----
+// A-GEN-ASDEREF  `Result<T, E>::as_deref()`: no precondition; nothing is claimed about the result (the caller only branches on it)
+pub assume_specification<T: std::ops::Deref, E>[ Result::<T, E>::as_deref ](r: &Result<T, E>) -> (out: Result<&<T as std::ops::Deref>::Target, &E>)
+;
+
+// A-GEN-ANDTHEN  `Result::and_then(f)`: calls `f` on the Ok value (so `f`'s precondition must hold for it), passes Err through
+pub assume_specification<T, E, U, F: FnOnce(T) -> Result<U, E>>[ Result::<T, E>::and_then ](r: Result<T, E>, f: F) -> (out: Result<U, E>)
+    requires
+        r is Ok ==> f.requires((r->Ok_0,)),
+    ensures
+        match r {
+            Ok(t) => f.ensures((t,), out),
+            Err(e) => out == Err::<U, E>(e),
+        },
+;
+
+// A-GEN-MAPOR  `Option::map_or(default, f)`: calls `f` on the Some value, returns `default` for None
+pub assume_specification<T, U, F: FnOnce(T) -> U>[ Option::<T>::map_or ](o: Option<T>, default: U, f: F) -> (out: U)
+    requires
+        o is Some ==> f.requires((o->0,)),
+    ensures
+        match o {
+            Some(t) => f.ensures((t,), out),
+            None => out == default,
+        },
+;
